@@ -281,10 +281,17 @@ func NewMessageDef(name, msgType string, parts []MessagePart) *MessageDef {
 
 		switch pType := part.(type) {
 		case messagePartWithFields:
+			// A field that is required in the component is required in the message only if
+			// the component is required - and, for nested components, only if every
+			// component on the way to it is: RequiredFields applies that rule.
+			requiredFields := make(map[*FieldDef]bool)
+			if pType.Required() {
+				for _, f := range pType.RequiredFields() {
+					requiredFields[f] = true
+				}
+			}
 			for _, f := range pType.Fields() {
-				// Field if required in component is required in message only if
-				// component is required.
-				processField(f, pType.Required())
+				processField(f, requiredFields[f])
 			}
 
 		case *FieldDef:
